@@ -224,9 +224,11 @@ def sign_rule(prog, body, kind):
                 if not good:
                     problems.append(f"the shift (maximum) starts from `{render(s)[:40]}` instead of neg_infinity() or a data element")
     if kind == "argmax":
-        cx = BodyCtx.of(body)
         found = False
-        for c in cx.cmps:
+        allcmps = []
+        for bd in bodies:
+            allcmps.extend(BodyCtx.of(bd).cmps)
+        for c in allcmps:
             for (L, R) in ((c.lhs, c.rhs), (c.rhs, c.lhs)):
                 isdata = L[0] == "idx" or (L[0] == "call" and L[1].endswith(("::get", "Index::index")))
                 if isdata and R[0] == "phi":
@@ -248,6 +250,14 @@ def sign_rule(prog, body, kind):
 
 def argmax_tie_class(prog, body):
     """'first' / 'last' (which of several equal maxima wins) or None if the idiom is not recognised"""
+    r = _argmax_tie_class(prog, body)
+    if r is None:
+        for cb in prog.closures_of.get(body.path, []):
+            r = r or _argmax_tie_class(prog, cb)
+    return r
+
+
+def _argmax_tie_class(prog, body):
     cx = BodyCtx.of(body)
     for c in cx.cmps:
         for (L, R, rel) in ((c.lhs, c.rhs, c.rel), (c.rhs, c.lhs, guards.FLIP[c.rel])):
